@@ -147,6 +147,44 @@ CLAIMED = {
                 "outside the modelled subset; function-position hints (validated by name in the code) are not modelled. No axioms.",
         "technique": "Coq proof of the lookup lemmas + computed refutation witness; two-mode differential testing with model-based finding attribution",
     },
+    "C15": {
+        "category": "proof",
+        "text": "Coq theorems (Properties_C15.v: C15_tables_in_step, C15_simulation, C15_restore, C15_added_gone, C15_readd, C15_readd_fresh, C15_snapshot_stable, C15_snapshot_is_env, "
+                "C15_locals_untouched, C15_no_dangling, C15_hints_safe, C15_fields_complete, C15_cow) for ALL histories over {add_function (def, C++, class members), globals, add type, "
+                "scripts, use(file), load_module, get_state, set_state(any snapshot)}: the mechanism (three function tables over shared overload vectors; add_function's known-name "
+                "branch, the State field lists and QuickFlatMap's hint guard regenerated from the source on every run) simulates a dictionary specification, so set_state restores "
+                "exactly the environment of get_state time, what was added is gone and can be added again, saved states never change. Tied by 400/4000 generated histories executed on "
+                "a real engine and diffed after every step with the extracted mechanism model; oracle = extracted dictionary spec.",
+        "design_ref": "DESIGN.md §6 C15",
+        "note": "Trusted: Coq kernel + vm_compute; translator t_EngineState.py; hand-written operation semantics in EngineDefs.v (validated step by step against the engine); function "
+                "identity = Proxy_Function address renamed by first appearance; extraction. No axioms.",
+        "technique": "Coq simulation proof over a source-regenerated mechanism description + extracted-model differential testing of histories",
+    },
+    "C19": {
+        "category": "proof",
+        "text": "Coq theorems (Properties_C19.v: C19_load, C19_load_ops, C19_eval_file, C19_use_once, C19_use_search_order, C19_missing): skip_bom/load_file, as the ordered list of ifstream "
+                "operations regenerated from chaiscript_engine.hpp and interpreted over a model of std::ifstream (read/seekg/clear/tellg, fail and eof bits), return for every content of "
+                "every length exactly the bytes minus at most one leading EF BB BF; use()'s body (regenerated) never evaluates a path again once it is in m_used_files, evaluates the "
+                "first existing candidate in search-path order, and reports the name it was given when nothing is found, for all histories with nested use / eval_file / errors. Tied by "
+                "~1300 load cases on the real load_file (all lengths 0..64 x BOM variants x CRLF x shebang x NULs), ~830 eval_file(path) vs eval(bytes) comparisons and 300 histories.",
+        "design_ref": "DESIGN.md §6 C19",
+        "note": "Trusted: Coq kernel + vm_compute; translator t_LoadFile.py; hand transcription of libstdc++ ifstream semantics in FilesDefs.v (validated by the load matrix incl. the 1-2 "
+                "byte failed-read path); shebang/parse behaviour is covered by the eval_file==eval differential only. No axioms.",
+        "technique": "Coq proof over source-regenerated operation lists + extracted-model differential on real files and histories",
+    },
+    "C14": {
+        "category": "proof",
+        "text": "Coq theorems (Properties_C14.v: C14_isolated, C14_matches_spec, C14_isolated_any_sound_policy, C14_key_policy, C14_state_is_per_engine, C14_refuted_by_address): with the "
+                "key policy extracted from class Thread_Storage on every run (every accessor and the destructor key the thread_local map by m_id, initialised from a static atomic "
+                "counter => ByFreshId), for every history of create / eval on thread t / destroy on thread t over any number of engines, threads and reused addresses, what an engine "
+                "observes is a function of the operations applied to it alone; with keys = addresses a vm_compute history has the second engine read the first one's locals. Tied by "
+                "400/4000 histories on real engines (3 long-lived worker threads, engines placement-constructed in a 3-slot arena so addresses are reused) diffed with the extracted "
+                "model, plus single-engine replays on the implementation itself.",
+        "design_ref": "DESIGN.md §6 C14",
+        "note": "Trusted: Coq kernel + vm_compute; translator t_ThreadStorage.py; one Thread_Storage per engine in the model (the engine has three with the same mechanism); commands are "
+                "serialised by the driver (true concurrency is C13); tables are record fields of the engine (isolation by construction, checked through the member/static scan). No axioms.",
+        "technique": "Coq noninterference proof parametrised by a source-extracted key policy + extracted-model differential on a deterministic multi-thread driver",
+    },
 }
 PENDING_REASON = "check not built yet in this round (work in progress; see DESIGN.md §6 for the planned Coq model and tie)"
 ALL = ["C%02d" % i for i in range(1, 21)]
